@@ -400,8 +400,11 @@ class PEP(object):
 
         """
 
-        # Create an expression that serve for the objective (min of the performance measures)
-        self.objective = Expression(is_leaf=True)
+        # Create an expression that serve for the objective (min of the performance measures).
+        # When the problem is solved again, the same expression is reused
+        # (otherwise each solve would add one more variable to the problem sent to the solver).
+        if self.objective is None:
+            self.objective = Expression(is_leaf=True)
 
         # Store functions that have class constraints as well as functions that have personal constraints
         list_of_leaf_functions = [function for function in Function.list_of_functions
